@@ -343,8 +343,12 @@ def find_irrelevant_type(etype: tp.Type, types: List[tp.Type],
         # type arguments in order to pass type arguments that are irrelevant
         # with any parameterized type created by this type constructor.
         type_list = [t for t in types if t != etype]
-        return get_irrelevant_parameterized_type(
+        t = get_irrelevant_parameterized_type(
                 t, type_list, type_args_map, factory)
+        if t is not None and not t.not_related(etype):
+            # The instantiated class may still be a subtype of `etype`
+            # through its declared supertypes, whatever its type arguments.
+            return None
     return t
 
 
